@@ -103,7 +103,10 @@ func (tr *Translator) lookupIdent(name string) tv {
 	}
 	f := tr.f
 	if tr.block != nil {
-		// phi at the loop header carrying this source variable
+		// phi at the loop header carrying this source variable (inside old() a parameter name means its entry value)
+		if v, ok := f.params[name]; ok && tr.inOld {
+			return tv{v, f.paramTy[name]}
+		}
 		if tr.li != nil {
 			for phi, t := range tr.phiEnv {
 				if phi.Comment == name && phi.Block() == tr.li.header {
@@ -638,6 +641,24 @@ func (tr *Translator) call(c *ECall) tv {
 		return tv{App(SInt, utf8Fns(tr.f.enc)[0], arg(0).t), tyInt}
 	case "utf8byte":
 		return tv{App(SInt, utf8Fns(tr.f.enc)[1], arg(0).t, arg(1).t), tyInt}
+	case "rvalid":
+		return tv{rvValid(tr.f.enc, arg(0).t), tyBool}
+	case "rtype":
+		return tv{rvType(tr.f.enc, arg(0).t), tr.goType("reflect.Type")}
+	case "rvalidat", "rtypeat":
+		// the reflect.Value a *reflect.Value points to
+		vt := tr.goType("reflect.Value")
+		vs := tr.f.p.sortOf(vt)
+		tr.f.enc.declSortOf(vs)
+		cell := Select(tr.stVar(tr.f.p.cellArray(vt), ArrSort(SInt, vs)), arg(0).t)
+		if c.Fn == "rvalidat" {
+			return tv{rvValid(tr.f.enc, cell), tyBool}
+		}
+		return tv{rvType(tr.f.enc, cell), tr.goType("reflect.Type")}
+	case "callok":
+		// depends on the argument slice's contents: the backing array is an argument of the predicate
+		sl := arg(1).t
+		return tv{tr.f.reflectCallOK([]T{arg(0).t, sl, tr.innerOf(sl, tr.goType("reflect.Value"))}), tyBool}
 	case "buflen":
 		// number of bytes written so far to a bytes.Buffer / strings.Builder (pointer to it)
 		return tv{Select(tr.stVar("BUF_len", ArrSort(SInt, SInt)), arg(0).t), tyInt}
